@@ -109,18 +109,8 @@ theorem nextBar_total (s : KeltnerChannel F) (b : Bar F) (h : WF s) :
   · exact (ExponentialMovingAverage.step_period _ _).trans h.ema_period
   · exact (ExponentialMovingAverage.step_period _ _).trans h.atr_period
 
-theorem reset_eq (s : KeltnerChannel F) (h : WF s) : s.reset = some (fresh s.period s.multiplier) := by
-  unfold reset
-  simp [AverageTrueRange.reset_eq _ h.atr, ExponentialMovingAverage.reset_eq _ h.ema, fresh,
-    AverageTrueRange.period_fn_eq, h.ema_period, h.atr_period]
-
 theorem period_fn_eq (s : KeltnerChannel F) : s.period_fn = s.period := rfl
+
 theorem multiplier_fn_eq (s : KeltnerChannel F) : s.multiplier_fn = s.multiplier := rfl
-theorem display_eq (fmt : F → String) (s : KeltnerChannel F) :
-    display fmt s = "KC(" ++ toString s.period ++ ", " ++ fmt s.multiplier ++ ")" := rfl
-theorem default_eq : (default_ : Option (KeltnerChannel F)) = some (fresh 10 (Scalar.lit 2 0)) := by
-  unfold default_
-  rw [new_eq]
-  simp [unwrap]
 
 end TaRs.Gen.KeltnerChannel
